@@ -16,7 +16,9 @@ HARNESSES = [
     dict(name="radius", pkg="./plugins/auth/radius/", test="TestVerifC03Radius", timeout=300,
          files=[("plugins/auth/radius/zz_verif_c03_radius_test.go", "harness/C03/zz_verif_c03_radius_test.go")]),
 ]
-VARIANTS = ["repaired", "defective"]
+# every C03 finding is fixed in /repo (KNOWN_FINDINGS.txt): the only variant is what /repo HEAD does; a regression to an old
+# defect is a VIOLATION.  (The driver still accepts "defective" = the code before the fixes, for the _refuted witnesses.)
+VARIANTS = ["repaired"]
 MODEL_NEEDS_IMPL = True   # only for the FSM table flavour reported by the harness (see notes/C03.md)
 RULE = ("pppoe: (a) systematic: each of 12 prefixes reaching a distinct phase/FSM situation (fresh, LCP open, auth pending, "
         "network, open, renegotiated, renegotiated+pending, re-authenticating, rejected, terminated, static address, "
@@ -110,8 +112,31 @@ PROBES = [[fr(0, "ipcp", "creq_ok"), "t:0:ipcp", fr(0, "ip6cp", "creq_ok"), fr(0
           ["a:1:acc", "a:2:acc", fr(0, "ip6cp", "creq_ok"), "t:0:ip6cp", "x:0", "a:2:acc"]]
 
 
-def gen_pppoe(rng, tier, budget):
+def gen_pppoe_raced():
+    """Forced overlap R:<frame>&<answer>: the frame is processed under the session lock while the AAA answer, already
+    matched to the session by its pending request id, waits for that lock.  Every frame kind x answer, from every
+    situation with a request outstanding, followed by probes."""
+    o = ["o:0"]
+    pend = o + lcp_up(0) + [fr(0, "chap", "resp")]
+    opn = pend + ["a:1:acc"] + ncp_up(0)
+    situations = [
+        (pend, 1),
+        (opn + [fr(0, "lcp", "creq_ok"), fr(0, "lcp", "cack"), fr(0, "chap", "resp")], 2),      # re-authentication pending
+        (o + [fr(0, "lcp", "cnak_pap"), fr(0, "lcp", "creq_ok"), fr(0, "lcp", "cack"), fr(0, "pap", "req")], 1),
+    ]
+    probe = [fr(0, "ipcp", "creq_ok"), fr(0, "ip6cp", "creq_ok"), fr(0, "lcp", "cack"), fr(0, "chap", "resp"), "a:9:acc", fr(0, "ipcp", "creq_ok")]
     cases = []
+    for p, k in situations:
+        for proto, kind in FRAMES:
+            for a in ("acc", "accip", "rej"):
+                cases.append("pppoe 2 " + " ".join(p + ["R:0:%s:%s&a:%d:%s" % (proto, kind, k, a)] + probe))
+        # an answer for an unknown / the other subscriber's request while a frame is in progress
+        cases.append("pppoe 2 " + " ".join(p + ["R:0:lcp:creq_ok&a:99:acc"] + probe))
+    return cases
+
+
+def gen_pppoe(rng, tier, budget):
+    cases = gen_pppoe_raced()
     pf = prefixes()
     for name, p in pf.items():
         for e in alphabet():
@@ -382,7 +407,8 @@ def distribution(cases, impl):
         d["pppoe_cases"] += 1
         ev = t[2:]
         d["events"] += len(ev)
-        d["aaa_answers"] += sum(e.startswith("a:") for e in ev)
+        d["aaa_answers"] += sum(e.startswith("a:") or "&a:" in e for e in ev)
+        d["raced_pairs"] = d.get("raced_pairs", 0) + sum(e.startswith("R:") for e in ev)
         d["frames"] += sum(e.startswith("f:") for e in ev)
         d["timers"] += sum(e.startswith("t:") for e in ev)
         d["reached_network"] += ("lN" in o)
